@@ -121,7 +121,9 @@ def config_dict(case, nodes=None, rs=None):
         cfg["trace"] = {"driver": "jsonl", "output_path": case.get("trace_path", "tr")}
     if rs is not None:
         block = {"combine": rs["combine"], "blocks": [dict({"mode": b["mode"], "context": {k: pg.v_impl(v) for k, v in b["context"]}},
-                                                           **({"source": {"format": "csv", "path": b["source"]["path"]}} if b.get("source") else {}))
+                                                           **({"source": dict({"format": "csv", "path": b["source"]["path"]},
+                                                                               **({"mode": b["source"]["mode"]} if b["source"].get("mode") else {}))}
+                                                              if b.get("source") else {}))
                                                       for b in rs["blocks"]]}
         if rs.get("max_runs") is not None:
             block["max_runs"] = rs["max_runs"]
@@ -452,6 +454,22 @@ def mk_case(rng, cls, flags=None, trace=None):
         b["context"] = b["context"] + [["extra", [1] * (case["n_runs"] + 1)]]
     elif cls == "run-space-block-sizes-differ":
         case["rs"]["blocks"] = case["rs"]["blocks"] + [{"mode": "by_position", "context": [["extra", [1] * (case["n_runs"] + 1)]]}]
+    elif cls == "run-space-over-max-runs" and rng.random() < 0.35:
+        # the runs over the cap come from a file loaded by a by_position block whose source multiplies its columns out
+        # (source.mode: combinatorial): k*k runs from two columns of k values, times the runs of the first block
+        k = rng.choice([2, 2, 3])
+        first = {"mode": "by_position", "context": [c for b in case["rs"]["blocks"] for c in b["context"]]}
+        src = {"mode": "by_position", "context": [], "source": {"path": "grid.csv", "mode": "combinatorial",
+                                                                "cols": [["gx", list(range(1, k + 1))], ["gy", list(range(11, 11 + k))]]}}
+        case["rs"]["combine"] = "combinatorial"
+        case["rs"]["blocks"] = [first, src]
+        cap = case["n_runs"] * k * rng.choice([1, 1, k - 1]) if k > 2 else case["n_runs"] * k      # >= rows of the file, < the product
+        case["n_runs"] = case["n_runs"] * k * k
+        if rng.random() < 0.5:
+            case["rs"]["max_runs"] = cap
+        else:
+            case["rs"]["max_runs"] = None
+            a["max_runs"] = cap
     elif cls == "run-space-over-max-runs":
         cap = rng.choice([case["n_runs"] - 1, case["n_runs"] - 1, 0])      # 0 is a legal cap: nothing may run
         if rng.random() < 0.5:
@@ -460,6 +478,14 @@ def mk_case(rng, cls, flags=None, trace=None):
             a["max_runs"] = cap
     elif cls == "run-space-attempt-zero":
         a["attempt"] = 0
+    elif cls == "missing-context-key" and (flags or {}).get("self_rewrite") is not None:
+        # the missing key is read AND re-written by the same node (a path given a suffix in place; a key renamed onto itself),
+        # after a file sink that would already have written its output
+        how = flags.pop("self_rewrite")
+        early = {"k": "sink", "file": True, "cfg": {"path": "early.txt"}}
+        node = ({"k": "template", "segs": [("hole", "lbl"), ("lit", ".bak")], "out": "lbl"} if how == "template" else {"k": "rename", "a": "lbl", "b": "lbl"})
+        nodes[1:1] = [early, node]
+        case["missing"] = "lbl"
     elif cls == "missing-context-key":
         pool = [k for k, _ in a["context"]]
         if not pool:   # make the pipeline need something neither a node, nor the run space, nor the command line provides
@@ -577,6 +603,15 @@ def gen_cases(rng, n_random, matrix=True):
             if cls == "run-space-over-max-runs" and c["args"].get("max_runs") is None:
                 c["args"]["max_runs"], c["rs"]["max_runs"] = c["rs"]["max_runs"], None      # cap given on the command line
             cases.append(c)
+        for how in ("template", "rename"):
+            cases.append(mk_case(rng, "missing-context-key", flags={"self_rewrite": how}, trace="yaml"))
+        # over the cap through a combinatorial SOURCE inside a by_position block (the planner and the expander must count alike)
+        r2 = random.Random(rng.random())
+        for _ in range(40):
+            c = mk_case(r2, "run-space-over-max-runs", trace="yaml")
+            if any((b.get("source") or {}).get("mode") == "combinatorial" for b in c["rs"]["blocks"]):
+                cases.append(c)
+                break
     for _ in range(n_random):
         r = rng.random()
         cls = rng.choice(["valid", "multi", "multi-fail", "runtime-fail"]) if r < 0.4 else rng.choice(sorted(REJECT))
@@ -624,7 +659,9 @@ def request_coq(case):
         cols_lit = lambda cs: cq_list([cq_pair(cq_str(k), cq_list(vs, rs_val)) for k, vs in cs])  # noqa: E731
         bl = ["(RunSpace.mkBlock %s %s %s)" % ("RunSpace.ByPosition" if b["mode"] == "by_position" else "RunSpace.Combinatorial",
                                                cols_lit(b["context"]),
-                                               "(Some (RunSpace.mkSource %s None [] RunSpace.ByPosition))" % cols_lit(b["source"]["cols"]) if b.get("source") else "None")
+                                               "(Some (RunSpace.mkSource %s None [] %s))" % (cols_lit(b["source"]["cols"]),
+                                                                                                "RunSpace.Combinatorial" if b["source"].get("mode") == "combinatorial" else "RunSpace.ByPosition")
+                                               if b.get("source") else "None")
               for b in rs["blocks"]]
         spec = "(RunSpace.mkSpec %s %s %s)" % ("RunSpace.ByPosition" if rs["combine"] == "by_position" else "RunSpace.Combinatorial",
                                                cq_Z(rs["max_runs"] if rs.get("max_runs") is not None else 1000), cq_list(bl))
